@@ -569,7 +569,7 @@ impl Value {
                                     return Value::Bool(v.contains(&any)).into()
                                 }
                                 (any, Value::Map(m)) => match any.try_into() {
-                                    Ok(key) => return Value::Bool(m.map.contains_key(&key)).into(),
+                                    Ok(key) => return Value::Bool(m.get(&key).is_some()).into(),
                                     Err(_) => return Value::Bool(false).into(),
                                 },
                                 (left, right) => {
